@@ -409,6 +409,9 @@ func (j *Job) runPath(sol *Solver, prefix []decision) {
 					outcome, detail = "unsupported", "engine: "+r.Error()+"\n"+string(debug.Stack())
 				} else {
 					outcome, detail = "panic", r.Error()
+					if os.Getenv("SYMGO_STACK") != "" {
+						detail += "\n" + string(debug.Stack())
+					}
 				}
 			case string:
 				outcome, detail = "panic", r
